@@ -144,6 +144,9 @@ pub fn race_lookups() -> Vec<OpSpec> {
         o(Op::Readlink { path: s("a/lnk"), bufsz: 4096 }).c(),
         o(Op::Resolve { path: s("a/b/lnk"), nofollow: true }),
         o(Op::OpenSubpath { path: s("etc/passwd"), flags: libc::O_RDONLY }),
+        // roots with NO_SYMLINKS (paths without links, with '..')
+        o(Op::Resolve { path: s("a/b/c/d/../../../../etc/passwd"), nofollow: false }).nosym(true),
+        o(Op::OpenSubpath { path: s("a/b/../b/c/../../../file"), flags: libc::O_RDONLY }).nosym(true),
     ]
 }
 
